@@ -4,8 +4,10 @@ import re
 
 def crash_nontrivial(tok, res):
     # anything that reached a handler: accepted logins, storms, the witnesses, watchdog passes
+    if not tok:
+        return False   # a stray line in the trace (the runner merges the harness' stderr): judged by the length check, not here
     return tok[0] in ("login", "negpool", "storm", "cstorm", "race6", "stun", "watch", "stat", "wconn", "wstorm", "tear",
-                      "relogin", "gleave", "nstorm", "swc", "closerace", "pstorm", "routes", "ureq", "ustorm", "canon", "ptear", "gchurn") or \
+                      "relogin", "gleave", "nstorm", "swc", "closerace", "pstorm", "routes", "ureq", "ustorm", "canon", "ptear", "gchurn", "ssh", "sstorm", "maxports", "ostorm") or \
         (tok[0] == "msg" and tok[2] in ("NewProxy", "CloseProxy", "Ping", "NatHoleVisitor", "NatHoleClient",
                                         "NatHoleReport", "NewWorkConn", "NewVisitorConn", "Login"))
 
@@ -34,7 +36,7 @@ def crash_class(res):
 
 PROP = {
         "level": "other",
-        "gens": ["LockFacts", "NilFacts", "LockOrder", "IndexFacts", "PluginClose"],
+        "gens": ["LockFacts", "NilFacts", "LockOrder", "IndexFacts", "PluginClose", "LockBalance", "MapCensus"],
         "theorems": [
             # 1. lock discipline over regenerated facts
             "Frp.C16.all_guarded_partial", "Frp.C16.unguarded_exact", "Frp.C16.all_guarded_status", "Frp.C16.all_guarded",
@@ -83,6 +85,19 @@ PROP = {
             # 9. frpc teardown against active plugin requests (regenerated Close methods of pkg/plugin/client)
             "Frp.C16.plugin_close_nonblocking", "Frp.C16.plugin_close_present", "Frp.C16.teardown_relogs", "Frp.C16.teardown_relogs_as_is",
             "Frp.C16.shutdown_wedges_forever", "Frp.C16.shutdown_mux_relogs", "Frp.C16.shutdown_witness",
+            # 10. the ssh tunnel gateway (regenerated index / slice sites of pkg/ssh, the request loop of handleNewChannel with Go's
+            #     integer arithmetic explicit, x/crypto/ssh's Unmarshal, one connection as a fold)
+            "Frp.C16.ssh_exec_shape", "Frp.C16.ssh_sites_present", "Frp.C16.ssh_sites_unguarded_exact", "Frp.C16.ssh_sites_guarded_code",
+            "Frp.C16.ssh_index_ok_sound", "Frp.C16.ssh_end_rejection_right", "Frp.C16.ssh_end_wide_accepted",
+            "Frp.C16.ssh_exec_wide_never_panics", "Frp.C16.ssh_exec_u32_panics_iff", "Frp.C16.ssh_exec_u32_int32_panics_iff",
+            "Frp.C16.ssh_exec_safe_partial", "Frp.C16.ssh_exec_witness", "Frp.C16.ssh_exec_fixed", "Frp.C16.ssh_exec_agree",
+            "Frp.C16.ssh_exec_extra_spec", "Frp.C16.ssh_exec_code", "Frp.C16.ssh_unmarshal_never_panics", "Frp.C16.ssh_unmarshal_fact",
+            "Frp.C16.ssh_conn_never_dies_fixed", "Frp.C16.ssh_conn_alive_partial", "Frp.C16.ssh_conn_witness", "Frp.C16.ssh_conn_code",
+            # 11. lock balance (regenerated: every way out of every function that locks), a session's ctl.mu
+            "Frp.C16.lock_balance", "Frp.C16.lock_balance_present", "Frp.C16.session_handles_all", "Frp.C16.session_teardown_closes",
+            "Frp.C16.lock_leak_never_closes", "Frp.C16.lock_leak_after_one_refusal", "Frp.C16.lock_leak_witness",
+            # 12. census of map-typed struct fields (regenerated): the list of designated shared tables is closed; pkg/auth
+            "Frp.C16.map_census_closed", "Frp.C16.map_census_present", "Frp.C16.auth_field_writes_pinned",
             # 4. engine predicate
             "Frp.C16.holdsOn_sound", "Frp.C16.model_holdsOn_login", "Frp.C16.model_holdsOn_login_fixed",
         ],
@@ -146,7 +161,30 @@ PROP = {
                 "within 3 s, register the proxy again and serve a request; the Lean engine runs UserIn.prun on the regenerated Close method; "
                 "`gchurn <kind> <rounds>` = two sessions take turns being the only member of one tcp / tcpmux / http group, every round the "
                 "member's leave and the other's join are written back to back in alternating order (50-400 rounds, no gate: the gates of `gleave` "
-                "park the join only), every join must be answered within 2 s and both sessions must answer a Ping",
+                "park the join only), every join must be answered within 2 s and both sessions must answer a Ping. SSH GATEWAY (eng_crash_ssh.go; "
+                "the child's frps has sshTunnelGateway without authorizedKeysFile = NoClientAuth, a second frps in the child has one authorized "
+                "key): `ssh <a|b> <auth> <item>...` = ONE golang.org/x/crypto/ssh client (no key / the authorized key / an unknown key / raw bytes "
+                "instead of a handshake) that opens channels of any type (session, direct-tcpip, forwarded-tcpip, x11, empty, unknown, random), "
+                "sends global requests (tcpip-forward, cancel-tcpip-forward, keepalive, unknown; payloads well-formed, truncated anywhere, with a "
+                "lying string length, trailing bytes, random) and channel requests (exec, shell, pty-req, env, subsystem, ..., unknown) whose "
+                "payloads come from ONE class around the `uint32 length || string` framing: empty, shorter than the length field, the field "
+                "alone, exact, prefix smaller / larger (by 1, far), prefixes near 2^31 and 2^32 (0x7FFFFFFB.., 0x80000000, 0xFFFFFFF0..0xFFFFFFFF), "
+                "8-32 KB, bytes that are not UTF-8, truncated, trailing data; bodies = frpc command lines (every supported type with ports of the "
+                "allowPorts window, domains, bad / unknown flags, --help, empty arguments, NUL bytes, unsupported types, the token / a wrong one / "
+                "none, colliding proxy names); items in any order on several channels, data, channel closes, a disconnect at any position; after "
+                "the script every open channel gets a request with WantReply (in-order handling: everything before it was handled), a complete "
+                "`ssh -R`-like script waits for the gateway's answer on the first channel (banner => one user connection through the tunnel must "
+                "be echoed: `up1`), and the op returns only when no goroutine of the process is inside handleNewChannel any more (goroutine dump, "
+                "<= 2 s, else `fail:`); the Lean engine turns the items into SshGw.Ev, runs SshGw.step with the arithmetic of `end` as the "
+                "regenerated facts have it and predicts the death exactly; `sstorm` = 4-10 such clients at once, three scripts each. LIMITS "
+                "(eng_crash_limits.go; the child's second frps has maxPortsPerClient = 2): `maxports <cid> <variant>` = one raw session fills the "
+                "limit (tcp / udp by variant), asks for one proxy more - the refusal must be ANSWERED -, then in one of six orders CloseProxy + a "
+                "NewProxy that now fits, Ping, another proxy above the limit (each answered within 2 s), drops (its port must stop listening "
+                "within 2 s) and logs in again WITH ITS RUN ID (LoginResp within 2 s, a proxy, a Ping). OIDC (eng_crash_oidc.go; a third frps of "
+                "the child with auth.method = oidc against the in-process OpenID provider of the C04 engine, additionalScopes HeartBeats + "
+                "NewWorkConns): `ostorm <seed> <nconn> <n>` = after one sequential login 8-20 peers at once, 40-120 rounds each: logins with "
+                "real RS256 tokens (the fleet's subject, own subjects, a token of an unpublished key), Pings and NewWorkConns carrying tokens - "
+                "all through the ONE verifier object -, then a fresh login that must be answered",
         "trusted": COMMON_TRUST + [
             "translator translate/gen_lockfacts.go (go/ast, syntactic): regenerates Frp/Gen/LockFacts.lean on every run - every access to "
             "the 24 designated map / member-list fields with the lock mode held at that statement (Lock/RLock/Unlock/RUnlock in statement "
@@ -204,6 +242,34 @@ PROP = {
             "`canon` ops (real function, no recover, compared on every ASCII host generated) and by C06's router engine; the teardown model by "
             "plugin_close_nonblocking (regenerated) and the `ptear` ops; net.SplitHostPort / strings.TrimSuffix / strings.ToLower are total "
             "(standard library)",
+            "pkg/ssh: the same extractor over pkg/ssh (Gen.IndexFacts.sshSites) with two more guard facts - `varLeLen i v` (i <= len(v), "
+            "from `len(v) < i` left early; conversions that keep the value on a 64-bit platform are stripped: uint64(len(v)), int(i) for i of "
+            "an unsigned type of at most 32 bits) and `defPlus i k T` (i := k + E with E = binary.BigEndian.Uint32/Uint16(...), possibly "
+            "converted; T = the type the sum is computed in, u32 or wide) - and the types of the few x/crypto/ssh functions / fields pkg/ssh "
+            "indexes through (ixExtResults / ixExtFields, read from the module source); it also lists the ssh.Unmarshal calls with the field "
+            "types of their target, the `go` statements of the package and its recover() calls. Trusted: `int` is 64 bits (the 32-bit case is "
+            "a theorem about the model only: ssh_exec_u32_int32_panics_iff); x/crypto/ssh v0.37.0 parseString / parseUint32 / Unmarshal as "
+            "transcribed in Model/SshGw.lean; that x/crypto/ssh hands the requests of a channel to handleNewChannel in order and accepts "
+            "request payloads as the client sent them (exercised by the `ssh` ops: the model predicts every death of the child exactly)",
+            "model Frp/Model/SshGw.lean (handleNewChannel's loop body with the arithmetic type and the width of int as parameters, "
+            "waitForwardAddrAndExtraPayload's two goroutines as one event fold) written by hand; tied by ssh_exec_shape / ssh_unmarshal_fact "
+            "(regenerated) and by the `ssh` ops. NOT modelled: the ssh handshake and x/crypto/ssh's mux, parseClientAndProxyConfigurer "
+            "(cobra / pflag on the exec string) and the virtual client behind a complete request - exercised by the `ssh` ops only",
+            "translator translate/gen_lockbalance.go (go/ast, syntactic): regenerates Frp/Gen/LockBalance.lean on every run - for every function "
+            "body and function literal of client/ pkg/ server/ (1115) the zero-argument X.Lock / RLock / Unlock / RUnlock calls in statement order, "
+            "keyed by the text of X, with a MAY-held set (union over the branches that go on, loops: not entered + end of body + every break / "
+            "continue); `defer X.Unlock()` and a deferred closure that unlocks X settle X; every `return` and the end of the body with something "
+            "still held is emitted as a leak. It does not follow locks handed to another function to unlock (none in the tree: 0 leaks over 121 "
+            "locking bodies, list of tolerated hand-overs `lockHandOvers` empty) and keys by text (a lock reached under two spellings in one "
+            "body would be reported, never missed)",
+            "translator translate/gen_mapcensus.go (go/ast, syntactic): regenerates Frp/Gen/MapCensus.lean on every run - every struct field of "
+            "client/ pkg/ server/ whose declared type is a map (51), with the statements outside constructors that write it (index assignment, "
+            "delete, clear, maps.Copy, reassignment; matched by field name inside the declaring package, a constructor = a function that builds "
+            "the struct or is called New<Struct>); for pkg/auth additionally every assignment a METHOD makes to a field of its receiver's struct "
+            "with the kind of the field's type. Pinned by hand (Props/C16.lean mapFieldsPinned, 6 entries with reasons): configuration value "
+            "objects, the metrics tables behind serverMetrics.mu, Dispatcher.msgHandlers (set up before Run), the vnet routers (own RWMutex)",
+            "model Frp/Model/LockBal.lean (one session's use of ctl.mu: NewProxy / CloseProxy handled synchronously by the read loop, the "
+            "worker's teardown) written by hand; tied by lock_balance (regenerated) and the `maxports` ops",
             "exploration (obligations 3-4 of DESIGN 6 C16) is a search, not a proof: no crash found is not absence of crashes",
         ],
         "assumptions": [
@@ -217,7 +283,7 @@ PROP = {
     }
 
 META = {
-        "engine": "lean+translate(LockFacts,NilFacts,LockOrder,IndexFacts,PluginClose)+harness(crash)",
+        "engine": "lean+translate(LockFacts,NilFacts,LockOrder,IndexFacts,PluginClose,LockBalance,MapCensus)+harness(crash)",
         "design_ref": "DESIGN.md §6 C16",
         "technique": "go/ast extraction of lock states, channel close/send guards, handler tables, NewControl's allocation and the uses of "
                      "pointer-typed message fields into Lean facts "
@@ -254,7 +320,25 @@ META = {
                 "the worker for every number of active requests, tcpMux on or off, every interleaving with the users (teardown_relogs_as_is); a "
                 "Shutdown without deadline never gets there with tcpMux off and one request that does not end (shutdown_wedges_forever), and "
                 "does with tcpMux on (shutdown_mux_relogs). Exploration: +~100 hostile user requests one by one, ~7 user storms, ~115 hosts "
-                "through CanonicalHost, ~11 plugin teardowns with held requests per quick run.",
+                "through CanonicalHost, ~11 plugin teardowns with held requests per quick run. Round 5 (ssh tunnel gateway): the 6 indexing / "
+                "slicing expressions of pkg/ssh (regenerated: 3 map lookups, `args[0]`, `req.Payload[:4]`, `req.Payload[4:end]`) are judged by the "
+                "same sound judgement, which now also reads HOW a bound was computed: `end := 4 + E` in uint32 does not imply 4 <= end "
+                "(ssh_end_rejection_right: len 5, E = 0xFFFFFFFC, end = 0), in a 64-bit type it does; the loop body of handleNewChannel with Go's "
+                "arithmetic explicit panics EXACTLY for an exec request of more than 4 bytes with a length prefix 0xFFFFFFFC..0xFFFFFFFF "
+                "(ssh_exec_u32_panics_iff; from 0x7FFFFFFC on a 32-bit build), never with the sum made in uint64 (ssh_exec_fixed, all types / "
+                "payloads / capacities), and then no sequence of global requests, channel opens and channel requests of a connection ends the "
+                "process (ssh_conn_never_dies_fixed; x/crypto/ssh's Unmarshal of the forward request never slices out of range: "
+                "ssh_unmarshal_never_panics). Which of the two holds is READ FROM THE SOURCE (C16.sshExecArith; ssh_exec_code / ssh_conn_code / "
+                "ssh_sites_guarded_code are valid on both trees). Exploration: +~75 hostile ssh clients one by one and ~4 storms per quick run. "
+                "Lock BALANCE (regenerated, all of client/ pkg/ server/): no function body can be left - return or end, on any path - with a "
+                "mutex it locked still held (lock_balance: 0 leaks over 121 locking bodies); for a session's ctl.mu this gives: every NewProxy "
+                "(within or above max_ports_per_client), CloseProxy and Ping of a live session is handled and the session is torn down when "
+                "its connection goes (session_handles_all, session_teardown_closes, all message sequences); ONE way out with the lock held and "
+                "the session is never torn down again, whatever follows (lock_leak_never_closes, lock_leak_after_one_refusal). Map CENSUS "
+                "(regenerated): each of the 51 map-typed struct fields that is written after construction (36) is a designated shared table "
+                "judged by obligation 1 or pinned with its reason (map_census_closed); in pkg/auth - whose verifier is one object shared by "
+                "all connection goroutines - the only field a method assigns is a slice, no map (auth_field_writes_pinned). Exploration: +~8 "
+                "`maxports` sessions and ~3 oidc storms (~2500 logins, ~1000 pings, ~1300 work connections through the verifier) per quick run.",
         "note": "Three findings, each reproduced on the real code by the engine and kept behind a switch: C16.precheckLockIsFixed "
                 "(hooks/C16-fix-precheck-lock.patch), Crash.poolCountIsFixed (hooks/C16-fix-poolcount.patch), Crash.discoverIsFixed "
                 "(hooks/C16-fix-discover-close.patch). Trusted: Lean kernel; the syntactic extractor; the pinned single-owner tables; the "
@@ -269,5 +353,9 @@ META = {
                 "engine (harness/corpus/crash), kept behind a switch with a tested patch: Crash.startWorkAddrIsFixed (frpc: a StartWorkConn "
                 "address that does not resolve + proxyProtocolVersion => nil dereference in go-proxyproto, hooks/C16-fix-startworkconn-addr.patch) "
                 "and Crash.udpForwardSendIsFixed (frps / frpc: a user datagram read just before a udp proxy closes => send on closed channel, "
-                "hooks/C16-fix-udp-forward-send.patch). Not followed by the lock-order extractor: calls through interfaces / function values.",
+                "hooks/C16-fix-udp-forward-send.patch). Not followed by the lock-order extractor: calls through interfaces / function values. "
+                "Round 5: one more finding of the unchanged tree, KNOWN until the repair is committed: C16-ssh-exec-payload-wrap (frps: one ssh "
+                "`exec` request with a length prefix 0xFFFFFFFC..0xFFFFFFFF on the ssh tunnel gateway => slice bounds out of range in a goroutine "
+                "without recover; without authorizedKeysFile no credential is needed), reproduced by the `ssh` ops, switch C16.sshExecArith read "
+                "from the regenerated facts, hooks/C16-fix-ssh-exec-payload-wrap.patch.",
     }
